@@ -105,7 +105,9 @@ def build(targets=None, timeout=3000, keep_going=False):
         missing = [t for t in (targets or []) if not os.path.exists(os.path.join(VERIF, t[:-1]))]
         if missing:
             return False, 'missing source for target(s): %s' % ' '.join(missing), gen_status
-        rc, out = sh('make -f Makefile.coq -j%d %s %s' % (NCPU, '-k' if keep_going else '', tg), cwd=VERIF, timeout=timeout)
+        # every coqc runs under tools/coqc_t (per-file time limit) so that a runaway proof cannot hold the lock
+        rc, out = sh('make -f Makefile.coq COQC=%s -j%d %s %s' % (os.path.join(VERIF, 'tools', 'coqc_t'), NCPU,
+                                                                '-k' if keep_going else '', tg), cwd=VERIF, timeout=timeout)
         return rc == 0, out, gen_status
 
 
